@@ -60,7 +60,8 @@ def flatten : BTok → List Lx
 def flat (T : Tape) : List Lx := T.flatMap flatten
 
 
-/-- why an input lexeme is not on the tape -/
+/-- why an input lexeme is not on the tape (tags of the WEAK accounting `C03_dropped_lexemes_partial`; they carry
+no context — the contextual statement is `Move` / `Moves` below) -/
 inductive DropKind where
   /-- the `=` after a key (`KeyValueSeparator`/`OpenSecond`, or the `=` that triggers the only_empties rewrite) -/
   | eqAfterKey
@@ -86,5 +87,43 @@ inductive InterT : List Lx → List (Lx × DropKind) → List Lx → Prop
   | nil : InterT [] [] []
   | left (x : Lx) {A : List Lx} {D : List (Lx × DropKind)} {C : List Lx} : InterT A D C → InterT (x :: A) D (x :: C)
   | right (p : Lx × DropKind) {A : List Lx} {D : List (Lx × DropKind)} {C : List Lx} : InterT A D C → InterT A (p :: D) (p.1 :: C)
+
+end Jomini.BinTape
+
+namespace Jomini.BinTape
+
+/-- `n` empty containers, as lexemes -/
+def pairsLex : Nat → List Lx
+  | 0 => []
+  | n + 1 => .open_ :: .close :: pairsLex n
+
+/-- **One iteration of the loop, seen on the lexeme content of the tape.**  `Move A L1 B o`: the tape's
+lexeme content goes from `A` to `B` while the lexemes `L1` are read; `o` is `some odd` exactly for the
+only_empties rewrite (tape.rs:600-616), `odd` being what `chunks_exact(2)` overlooks.  There are four moves
+and no other:
+* `keep`: everything read is appended (a key, a value, `{`, `}`, an `=` in a mixed container, an rgb block);
+* `eqAfterKey`: an `=` is read and not recorded, and the last lexeme on the tape is a scalar — the key;
+* `ghost`: an adjacent `{ }` pair is read and not recorded;
+* `rewrite`: an `=` is read and not recorded; the tape ends with the `{` of a container, then `n ≥ 1` empty
+  containers, then at most one more tape token (`odd`), then the token `last`; the empty containers and `odd`
+  are removed (the container becomes an object with key `last`). -/
+inductive Move : List Lx → List Lx → List Lx → Option (List Lx) → Prop
+  | keep (A L1 : List Lx) : Move A L1 (A ++ L1) none
+  | eqAfterKey (A : List Lx) (k : BTok) : Move (A ++ [.tok k]) [.equal] (A ++ [.tok k]) none
+  | ghost (A : List Lx) : Move A [.open_, .close] A none
+  | rewrite (A : List Lx) (n : Nat) (odd : List Lx) (last : BTok) : 1 ≤ n → (odd = [] ∨ ∃ y : BTok, odd = flatten y) →
+      Move (A ++ [.open_] ++ pairsLex n ++ odd ++ flatten last) [.equal] (A ++ [.open_] ++ flatten last) (some odd)
+
+/-- a run of moves: from content `A`, reading `L`, to content `C`; `odds` lists the `odd` chunk of every
+rewrite move, in order (its length is the number of rewritten containers) -/
+inductive Moves : List Lx → List Lx → List Lx → List (List Lx) → Prop
+  | nil (A : List Lx) : Moves A [] A []
+  | step {A B C L1 L2 : List Lx} {o : Option (List Lx)} {odds : List (List Lx)} :
+      Move A L1 B o → Moves B L2 C odds → Moves A (L1 ++ L2) C (o.toList ++ odds)
+
+/-- scalar / id lexemes (everything but `{`, `}`, `=`) -/
+def Lx.isTok : Lx → Bool
+  | .tok _ => true
+  | _ => false
 
 end Jomini.BinTape
